@@ -344,6 +344,14 @@ func (g *G) jsonDoc(depth int, sb *strings.Builder) {
 }
 
 func genJsonDec(g *G, tier string, emit func(string)) {
+	// every byte value in every position between tokens (whitespace is exactly 0x20 0x09 0x0a 0x0d)
+	for b := 0; b < 256; b++ {
+		c := string([]byte{byte(b)})
+		for _, t := range []string{c + "1", "1" + c, "[" + c + "]", "[1" + c + "]", "[1," + c + "2]", "[1" + c + ",2]", `{"a"` + c + `:1}`, `{"a":` + c + `1}`, `{` + c + `"a":1}`, `{"a":1` + c + `}`, `{"a":1,` + c + `"b":2}`, c + `"x"`, `"x"` + c, `[true` + c + `]`, `[null` + c + `,1]`} {
+			emit(hexOrDash([]byte(t)))
+		}
+	}
+
 	em := func(b []byte) { emit(hex.EncodeToString(b)) }
 	// (a) all strings up to L over the JSON alphabet, as a prefix tree: a prefix is extended
 	// only while the decoder has not definitively rejected it
